@@ -138,6 +138,17 @@ impl Group for C07 {
                 "restart",
                 "close2 2998000 0 1 10 22 RANK(10) 0 1 0 0 0 0 0 0",
             ]),
+            // ordered filter with overlapping rules: [error exact policy-mutual-fee-range, warn prefix policy-mutual-]:
+            // a close leaving far too much fee stays refused, an unknown destination is demoted
+            v(&[
+                "policy 0 4 2016 1000000001 10000 1000 16777216 0 253 333333 222000 0 2 14 0 0 1 1 1",
+                "setup 1 3000000 0 6 7 1 0 0 0",
+                "cp 0 0 0 2999000 0 0 0",
+                "hold 0 0 2999000 0 0 0 1",
+                "revoke 0",
+                "close2 1000000 0 1 20 22 RANK(20) 0 0 0 0 0 0 0 0",
+                "close2 2998000 0 1 20 22 RANK(20) 0 0 0 0 0 0 0 0",
+            ]),
             // fundee: holder value must be within epsilon of both commitments
             v(&[
                 "policy 0 4 2016 1000000001 10000 1000 16777216 0 253 333333 222000 0",
@@ -173,6 +184,11 @@ impl Group for C07 {
             5 => (1 << 8) | (1 << rng.below(12)),
             _ => 0,
         };
+        // ordered multi-rule filters with overlaps on a mutual-close tag
+        if rng.chance(1, 6) {
+            pol.rules = gen_overlap_rules(rng, &[12, 13, 14, 15, 21, 22]);
+            if rng.chance(2, 3) { pol.mask = 0 }
+        }
         let outbound = rng.chance(1, 2);
         let value: u64 = match rng.below(10) {
             0 => 5_000_000_000,
